@@ -660,6 +660,20 @@ func (e *Env) evalCall(n *ECall) SVal {
 		need(1)
 		c.declareFun("be64.dec", []Sort{SStr}, SInt)
 		return SVal{T: app(SInt, "be64.dec", arg(0).T)}
+	case "visited":
+		// visited(k): inside an invariant of a loop that ranges over a map - key k has already been handed out by the
+		// iteration (the order is arbitrary: the model visits the keys in an unknown permutation)
+		need(1)
+		if e.fr == nil || len(e.fr.iters) == 0 {
+			return e.errf("visited() outside a function that ranges over a map")
+		}
+		if len(e.fr.iters) > 1 {
+			return e.errf("visited(): several map iterations in this function")
+		}
+		for _, rs := range e.fr.iters {
+			k := c.mapKey(rs.mt, arg(0).T)
+			return SVal{T: tSelect(e.heap(e.cur, rs.name), k)}
+		}
 	case "allof":
 		// allof(T.f) or allof(pkg.T.f): field f of every object of struct type T (the whole field array), to state that
 		// no object's f changed: allof(Model.List) == old(allof(Model.List))
